@@ -4,8 +4,9 @@ import hashlib, json, os, shutil, subprocess, sys, tempfile, time, concurrent.fu
 
 V = '/verif'
 NPROC = int(os.environ.get('VERIF_NPROC', '16'))
-GOENV = dict(os.environ, GOFLAGS='-mod=mod', GOPROXY='off', GOSUMDB='off', GOTOOLCHAIN='local',
-             GOCACHE=os.environ.get('GOCACHE', f'{V}/build/gocache'))
+GOENV = dict(os.environ, GOFLAGS='-mod=readonly', GOPROXY='off', GOSUMDB='off', GOTOOLCHAIN='local',
+             GOCACHE=os.environ.get('GOCACHE', f'{V}/build/gocache'),
+             GOMAXPROCS=os.environ.get('VERIF_GOMAXPROCS', '2'))
 SEED = int(os.environ.get('VERIF_SEED', '0') or 0)
 T0 = time.time()
 
@@ -94,7 +95,7 @@ def run_shards(sub, args, nshards=None, timeout=7200):
                 outp = f'{d}/out{i}.{attempt}.jsonl'
                 try:
                     r = subprocess.run([f'{V}/bin/vp', sub, *args, '-shard', f'{i}/{n}', '-out', outp, '-from', str(frm)],
-                                       capture_output=True, text=True, env=GOENV, timeout=timeout)
+                                       stdout=subprocess.DEVNULL, stderr=subprocess.PIPE, text=True, env=GOENV, timeout=timeout)
                     err, rc = r.stderr, r.returncode
                 except subprocess.TimeoutExpired as e:
                     err, rc = (e.stderr or b'').decode('utf8', 'replace') + '\nTIMEOUT', -9
@@ -132,7 +133,7 @@ def load_known(prop):
     if not os.path.exists(p):
         return []
     data = json.load(open(p))
-    return [k for k in data.get('findings', []) if k['property'] == prop and k.get('status', 'open') == 'open']
+    return [k for k in data.get('findings', []) if (k['property'] == prop or prop in k.get('also', [])) and k.get('status', 'open') == 'open']
 
 
 def explain(known, atoms, cfg=None, extra=None):
